@@ -817,7 +817,11 @@ def _array_key(e, env, depth=0):
         v = e["v"]
         if v in env:
             i = F.peel(env[v])
-            if isinstance(i, dict) and i.get("k") in ("VarRef", "UpvarRef", "Index"):
+            # a clone / a re-borrow of an array is the same array as far as its shape goes
+            while isinstance(i, dict) and i.get("k") == "Call" and i.get("args") and ((resolved(i) or "") == "<%s as core::clone::Clone>::clone" % ARRAY
+                                                                                      or (callee(i) or "") in ("core::clone::Clone::clone", "core::borrow::Borrow::borrow", "core::convert::AsRef::as_ref")):
+                i = F.peel(i["args"][0])
+            if isinstance(i, dict) and i.get("k") in ("VarRef", "UpvarRef", "Index") and F.var_of(i) != v:
                 return _array_key(i, env, depth + 1)
         return ("v", v)
     if e.get("k") == "Index":
@@ -906,7 +910,53 @@ def r32_sliced_shape_contract(facts):
             else:
                 c.unk(inst, where, "operand shape %s and input_dimensions %s are different symbolic values" % (_fmt_term(shape), _fmt_term(in_t)))
     c.floor("single-operand sliced_op call sites", n_sites, 4)
+    _sliced_flatten_guard(facts, c)
     return c
+
+
+def _sliced_flatten_guard(facts, c):
+    """the summary the call sites are judged with - "the last flatten_count output dimensions are collapsed into one" - holds for the primitive
+    itself: the statements that rewrite the output dimensions run exactly when flatten_count > 0"""
+    so = facts.body("corgi::array::Array::sliced_op")
+    if so is None:
+        return
+    ps = [p for p in facts.params(so) if p.get("pat")]
+    fcv = ps[6]["pat"].get("v") if len(ps) > 6 and ps[6]["pat"].get("k") == "Binding" else None
+    odv = ps[4]["pat"].get("v") if len(ps) > 4 and ps[4]["pat"].get("k") == "Binding" else None
+    if fcv is None:
+        return
+    root = facts.root(so)
+    # the local copy of the output dimensions that is rewritten
+    sites = []
+    for n, ctx in F.walk_ctx(root):
+        if n.get("k") == "Call" and (callee(n) or "").rsplit("::", 1)[-1] in ("truncate", "pop", "drain", "resize", "split_off") and n["args"] and "usize" in (strip(n["args"][0]).get("ty") or ""):
+            sites.append((n, ctx))
+    inst = "flatten-guard:sliced_op"
+    if not sites:
+        c.unk(inst, F.loc(so, root), "the statement that collapses the flattened output dimensions is not recognised")
+        return
+    n, ctx = sites[0]
+    # the branches the statement sits in (assertions passed on the way are not guards of it)
+    conds = F.path_facts(tuple(fr for fr in ctx if fr[0] in ("if", "logic", "arm", "guard")))
+    ok_guard = False
+    extra = []
+    for cond, truth in conds:
+        cs = strip(cond)
+        good = False
+        if truth and cs.get("k") == "Binary" and F.var_of(cs["l"]) == fcv:
+            k_ = lit_value(cs["r"])
+            good = (cs["op"], k_) in (("Gt", 0), ("Ne", 0), ("Ge", 1))
+        if good:
+            ok_guard = True
+        else:
+            extra.append(cond)
+    if ok_guard and not extra:
+        c.ok(inst, F.loc(so, n), "the output dimensions are collapsed exactly when flatten_count > 0")
+    elif ok_guard:
+        c.bad(inst, F.loc(so, n), "the collapse of the last flatten_count output dimensions is additionally conditioned on `%s`: for the other inputs the result keeps one unit dimension per "
+              "flattened dimension instead of a single one (its rank depends on something else than flatten_count)" % show(extra[0])[:60])
+    else:
+        c.unk(inst, F.loc(so, n), "the condition under which the flattened output dimensions are collapsed is not `flatten_count > 0`")
 
 
 def _fmt_term(t):
